@@ -82,7 +82,9 @@ CHECKS = {
              'garbage, unterminated last string) are injected into valid spelled documents: the real parser must never return a '
              'database. The Lean character-level parser model must return the same verdict class on every faulty text and on random '
              'token/character mutants and token soups. Theorems: the model accepts only when StringEnd succeeds on the remaining '
-             'input (accepts_only_whole_input, stringEnd_ok, advance_suffix, skipWs_suffix).',
+             'input (accepts_only_whole_input, stringEnd_ok, advance_suffix, skipWs_suffix); the fuel the model gives every '
+             'repetition never decides (Fuel.lean: every grammar rule only moves forward, many_fuel_irrelevant, '
+             'document_fuel_irrelevant) - the model\'s loops are the unbounded ones of pyparsing.',
         note=TB + '; rejection at every position is explored, not proved',
         technique='Lean parser model + whole-input theorem + verdict correspondence + fault-injection oracle'),
     'C08': dict(
